@@ -332,6 +332,8 @@ func c20EqPool() []poolVal {
 			return variants.VariantFromArray([]*variants.Variant{variants.VariantFromArray([]*variants.Variant{variants.VariantFromInteger(2)})})
 		}},
 	)
+	// payloads of two DIFFERENT host types that print the same type name, one comparable, one not
+	p = append(p, c20SameNameA(), c20SameNameB(), c20SameNameA2())
 	// nested lists whose rows are one shared variant object / distinct but equal / different in a later row
 	row := func(xs ...int) *variants.Variant {
 		r := []*variants.Variant{}
@@ -377,6 +379,32 @@ func c20EqPool() []poolVal {
 		p = append(p, poolVal{e.label, func() *variants.Variant { return variants.VariantFromArray(e.mk()) }})
 	}
 	return p
+}
+
+func c20SameNameA() poolVal {
+	type Item struct {
+		N int
+		P *int
+	}
+	n := 1
+	return poolVal{"Object(local type Item#1 {N, *P})", func() *variants.Variant { return variants.VariantFromObject(Item{1, &n}) }}
+}
+
+func c20SameNameA2() poolVal {
+	type Item struct {
+		N int
+		P *int
+	}
+	n := 1
+	return poolVal{"Object(local type Item#1b {N, other *P to an equal value})", func() *variants.Variant { return variants.VariantFromObject(Item{1, &n}) }}
+}
+
+func c20SameNameB() poolVal {
+	type Item struct {
+		N  int
+		Xs []int
+	}
+	return poolVal{"Object(local type Item#2 {N, []Xs})", func() *variants.Variant { return variants.VariantFromObject(Item{1, []int{1}}) }}
 }
 
 // refEquals: "" unknown (either accepted), "t", "f".
@@ -531,6 +559,7 @@ func c20SeqRun(c *fw.Ctx, h []int) {
 	m := &c20Model{}
 	// null fillers created by growth have their own identity (negative ids); fillVal is their value (0 = Null)
 	fillVal := map[int]int{}
+	fillAlt := map[int]map[string]bool{} // filler id -> holders ("v"/"w") for which both Null and 7 are acceptable
 	nextFill := 0
 	newFill := func() int {
 		nextFill--
@@ -569,14 +598,21 @@ func c20SeqRun(c *fw.Ctx, h []int) {
 				for i, id := range e {
 					g := x.GetByIndex(i)
 					if id <= 0 {
-						if fillVal[id] == 0 {
+						if alt, ok := fillAlt[id]; ok && alt[name] {
+							// this holder did not write the filler itself: whether it shares the element object with the
+							// holder that did (and sees the 7) or has a copy of its own (still Null) is not specified
+							if g == nil || !(g.Type() == variants.Null || (g.Type() == variants.Integer && g.AsInteger() == 7)) {
+								return fmt.Sprintf("%s[%d] should be a filler holding Null or 7 but is %s", name, i, variantStr(g))
+							}
+						} else if fillVal[id] == 0 {
 							if g == nil || g.Type() != variants.Null {
 								return fmt.Sprintf("%s[%d] should be a Null filler but is %s", name, i, variantStr(g))
 							}
 						} else if g == nil || g.Type() != variants.Integer || g.AsInteger() != fillVal[id] {
 							return fmt.Sprintf("%s[%d] should be the filler that was set to %d", name, i, fillVal[id])
 						}
-					} else if g != elems[id] {
+					} else if g == nil || variantStr(g) != variantStr(elems[id]) {
+						// (compared by value: whether a copy of a list shares the element OBJECTS is not specified)
 						gs := "<nil>"
 						if g != nil {
 							gs = variantStr(g)
@@ -668,6 +704,11 @@ func c20SeqRun(c *fw.Ctx, h []int) {
 				}
 				m.wT, m.wE, m.wI, m.wU = m.vT, cp(m.vE), m.vI, m.vU
 				m.shared = false
+				for _, id := range m.vE { // the copy holds what v holds: ambiguous exactly where v is
+					if fillAlt[id] != nil {
+						fillAlt[id]["w"] = fillAlt[id]["v"]
+					}
+				}
 				if !m.vU {
 					var eq bool
 					if pv := fw.Try(func() { eq = w.Equals(v) && v.Equals(w) }); pv != nil || !eq {
@@ -691,6 +732,11 @@ func c20SeqRun(c *fw.Ctx, h []int) {
 			case 9:
 				v.Assign(w)
 				m.vT, m.vE, m.vI, m.vU = m.wT, cp(m.wE), m.wI, m.wU
+				for _, id := range m.wE {
+					if fillAlt[id] != nil {
+						fillAlt[id]["v"] = fillAlt[id]["w"]
+					}
+				}
 				if m.wT == 2 {
 					m.shared = true // storage may or may not be shared: not predicted
 				}
@@ -721,6 +767,14 @@ func c20SeqRun(c *fw.Ctx, h []int) {
 				}
 				v.GetByIndex(k).SetAsInteger(7)
 				fillVal[m.vE[k]] = 7
+				for _, id := range m.wE {
+					if id == m.vE[k] {
+						if fillAlt[id] == nil {
+							fillAlt[id] = map[string]bool{}
+						}
+						fillAlt[id]["w"] = true
+					}
+				}
 			case 15:
 				// the caller truncates its list but keeps the backing array
 				s = s[:0]
